@@ -177,6 +177,18 @@ def rand_basis(rng, ls, types=None, geom=None, emin=0.02, emax_fn=cap, Kmax=4, M
     classes = {gcls}
     for s in shells:
         classes.update(s.pop("_cls"))
+    if n >= 2 and rng.random() < 0.12:
+        # two DIFFERENT shells on one exponent set (segmented basis sets reuse the primitives of an atom; S and P of a Pople SP
+        # block): same exponents and - where the angular momentum agrees - the same number of columns, other coefficients
+        i_, j_ = (int(x) for x in rng.permutation(n)[:2])
+        if ls[i_] != ls[j_]:
+            same = [(a, b) for a in range(n) for b in range(a + 1, n) if ls[a] == ls[b]]
+            if same and rng.random() < 0.7:
+                i_, j_ = same[int(rng.integers(len(same)))]
+        shells[j_]["e"] = list(shells[i_]["e"])
+        M_ = len(shells[i_]["k"][0]) if ls[i_] == ls[j_] else len(shells[j_]["k"][0])
+        shells[j_]["k"] = rand_coeffs(rng, ls[j_], shells[j_]["e"], M_)
+        classes.add("exp:shared-between-shells")
     if symmetric is None:
         symmetric = bool(rng.random() < 0.15)
     if symmetric and geom is None and ((n >= 3 and ls[1] <= min(ls[2:])) or (n == 2 and ls[0] == ls[1])):
